@@ -86,22 +86,25 @@ class Kinds:
     this is (reads of `self.f` have the declared kinds -- the invariant the store obligations maintain); `call_kinds(name, call)`
     -> kinds | None for calls of module-level functions (result kinds of a helper)."""
 
-    def __init__(self, fn, self_fields=None, call_kinds=None, consts=None, self_name=None, call_parts=None):
+    def __init__(self, fn, self_fields=None, call_kinds=None, consts=None, self_name=None, call_parts=None, param_kinds=None):
         self.fn, self.fields, self.call_kinds, self.call_parts = fn, self_fields or {}, call_kinds, call_parts
         self.consts = dict(consts or {})                 # parameter name -> ast.Constant (call-site literal)
         a = fn.args
         params = a.posonlyargs + a.args + a.kwonlyargs
         self.self_name = self_name if self_name is not None else (params[0].arg if params and self.fields else None)
         self.env = {}
+        pk = param_kinds or {}                            # parameter -> (kinds, element kinds) of the argument at the call site under analysis
         for p in params:
             if p.arg in self.consts:
                 self.env[p.arg] = self.of(self.consts[p.arg])
+            elif p.arg in pk:
+                self.env[p.arg] = set(pk[p.arg][0]) or set(UNKNOWN)
             else:
                 self.env[p.arg] = ann_kinds(p.annotation) if p.arg != self.self_name else {"obj:self"}
         for extra in (a.vararg, a.kwarg):
             if extra is not None:
                 self.env[extra.arg] = set(UNKNOWN)
-        self.elem = {}                                   # name -> kinds of the elements of the list bound to it
+        self.elem = {p: set(v[1]) for p, v in pk.items() if p not in self.consts}     # name -> kinds of the elements of the list bound to it
         self._final = False
         self.parts, self.eparts = {}, {}                 # name -> component kinds of the tuple bound to it / of the tuples in the list bound to it
         self.locals = {n.id for n in ast.walk(fn) if isinstance(n, ast.Name) and isinstance(n.ctx, ast.Store)}
@@ -325,7 +328,7 @@ class Kinds:
                 return BOT if e.id in self.locals else None
             return v if v is not False else None
         if isinstance(e, ast.Call) and isinstance(e.func, ast.Name) and self.call_parts is not None and e.func.id not in self.env:
-            return self.call_parts(e.func.id, e)
+            return self.call_parts(e.func.id, e, self)
         if isinstance(e, ast.IfExp):
             a, b = self.tuple_parts(e.body), self.tuple_parts(e.orelse)
             if isinstance(a, list) and isinstance(b, list) and len(a) == len(b):
@@ -486,7 +489,7 @@ class Kinds:
                 if f.id in BUILTIN_RESULT and f.id not in self.env:
                     return {BUILTIN_RESULT[f.id]}
                 if self.call_kinds is not None:
-                    k = self.call_kinds(f.id, e)
+                    k = self.call_kinds(f.id, e, self)
                     if k is not None:
                         return set(k)
                 if f.id[:1].isupper() and f.id not in self.env:          # a class of the module / an imported class: an instance of it
@@ -496,8 +499,10 @@ class Kinds:
                 base = self.of(f.value)
                 if f.attr in STR_METHODS and (base == {"str"} or (isinstance(f.value, ast.Constant) and isinstance(f.value.value, str))):
                     return {"str"}
-                if f.attr in ("isoformat", "strftime", "hex", "decode"):
-                    return {"str"} if base != UNKNOWN or f.attr != "decode" else set(UNKNOWN)
+                if f.attr in ("isoformat", "strftime", "hex"):
+                    return {"str"}
+                if f.attr == "decode" and base == {"bytes"}:
+                    return {"str"}
             return set(UNKNOWN)
         return set(UNKNOWN)
 
@@ -576,8 +581,8 @@ class ModuleKinds:
         self._busy = set()
         self._memo = {}
 
-    def _callee(self, name, call):
-        """(function node, {parameter: literal}) or None when the call shape is not understood."""
+    def _callee(self, name, call, caller=None):
+        """(function node, {parameter: literal}, {parameter: (kinds, element kinds)}) or None when the call shape is not understood."""
         fn = self.m.functions.get(name)
         if fn is None or not isinstance(fn, (ast.FunctionDef,)):
             return None
@@ -586,37 +591,37 @@ class ModuleKinds:
         a = fn.args
         pos = [p.arg for p in a.posonlyargs + a.args]
         names = set(pos) | {p.arg for p in a.kwonlyargs}
-        consts = {}
+        consts, pk = {}, {}
         if call is not None:
             if any(isinstance(x, ast.Starred) for x in call.args) or any(k.arg is None for k in call.keywords):
                 return None
-            for i, x in enumerate(call.args):
-                if i < len(pos) and isinstance(x, ast.Constant):
-                    consts[pos[i]] = x
-            for k in call.keywords:
-                if k.arg in names and isinstance(k.value, ast.Constant):
-                    consts[k.arg] = k.value
+            bound = [(pos[i], x) for i, x in enumerate(call.args) if i < len(pos)] + [(k.arg, k.value) for k in call.keywords if k.arg in names]
+            for prm, x in bound:
+                if isinstance(x, ast.Constant):
+                    consts[prm] = x
+                elif caller is not None:                      # what the caller knows about the argument (kinds, element kinds)
+                    pk[prm] = (frozenset(caller.of(x)), frozenset(caller.elem_of(x)))
             passed = set(pos[:len(call.args)]) | {k.arg for k in call.keywords}
             defaults = dict(zip(pos[len(pos) - len(a.defaults):], a.defaults)) if a.defaults else {}
             defaults.update({p.arg: d for p, d in zip(a.kwonlyargs, a.kw_defaults) if d is not None})
             for p, d in defaults.items():                    # defaults of parameters the call does not pass
                 if p not in passed and isinstance(d, ast.Constant):
                     consts[p] = d
-        return fn, consts
+        return fn, consts, pk
 
-    def _run(self, name, call, what):
-        got = self._callee(name, call)
+    def _run(self, name, call, what, caller=None):
+        got = self._callee(name, call, caller)
         if got is None:
             return None
-        fn, consts = got
-        key = (what, name, tuple(sorted((k, repr(v.value)) for k, v in consts.items())))
+        fn, consts, pk = got
+        key = (what, name, tuple(sorted((k, repr(v.value)) for k, v in consts.items())), tuple(sorted((k, tuple(sorted(v[0])), tuple(sorted(v[1]))) for k, v in pk.items())))
         if key in self._memo:
             return self._memo[key]
         if key in self._busy:
             return set() if what == "kinds" else BOT
         self._busy.add(key)
         try:
-            kk = Kinds(fn, None, self.call_kinds, consts, self_name="", call_parts=self.call_parts)
+            kk = Kinds(fn, None, self.call_kinds, consts, self_name="", call_parts=self.call_parts, param_kinds=pk)
             if what == "kinds":
                 out = set()
                 for r in kk.returns():
@@ -632,8 +637,8 @@ class ModuleKinds:
         self._memo[key] = out
         return out
 
-    def call_kinds(self, name, call):
-        return self._run(name, call, "kinds")
+    def call_kinds(self, name, call, caller=None):
+        return self._run(name, call, "kinds", caller)
 
-    def call_parts(self, name, call):
-        return self._run(name, call, "parts")
+    def call_parts(self, name, call, caller=None):
+        return self._run(name, call, "parts", caller)
